@@ -13,7 +13,8 @@ checks, na = [], []
 for p in props:
     pid = p["id"]
     path = os.path.join(HERE, "vlib", "props", pid.lower() + ".py")
-    if not os.path.exists(path):
+    claimed = set(open(os.path.join(HERE, "tools", "claimed.txt")).read().split())
+    if not os.path.exists(path) or pid not in claimed:
         na.append({"property_id": pid, "reason": "check not built yet (design in DESIGN.md section 5); will be claimed when its module exists"})
         continue
     m = importlib.import_module("vlib.props." + pid.lower())
